@@ -3,6 +3,7 @@ open Ast
 open BinNat
 open BinNums
 open Bool
+open Context
 open Datatypes
 open DcViews
 open Json
